@@ -17,7 +17,7 @@ from . import c09
 
 preimport = c09.preimport  # the concurrent part runs under the controlled scheduler (vf/sched.py)
 
-FORMS = ("bare", "modattr", "alias", "wrapper", "comp", "lambda", "partial", "modattr-local")
+FORMS = ("bare", "modattr", "alias", "wrapper", "comp", "lambda", "partial", "modattr-local", "arg-of-chained-call")
 KINDS = ("M", "E", "P")  # memento auto, memento explicit, plain
 
 
@@ -34,6 +34,8 @@ def call_expr(e, form):
         return "(lambda: %s(1, hid=hid, fnarg=fnarg))()" % e
     if form == "partial":
         return "functools.partial(%s, 1)(hid=hid, fnarg=fnarg)" % e
+    if form == "arg-of-chained-call":  # named only inside the argument list of a call whose result is dereferenced
+        return "list([%s(1, hid=hid, fnarg=fnarg)]).copy()[0]" % e
     return "%s(1, hid=hid, fnarg=fnarg)" % e
 
 
@@ -340,6 +342,97 @@ def _rebind_child(root, store, decA, decB):
     return obs
 
 
+REDEF_SRC_HEAD = """import sys
+import twosigma.memento as m
+
+@m.memento_function
+def OLD(x=1):
+    return ['OLD']
+
+@m.memento_function
+def NEW(x=1):
+    return ['NEW']
+
+@m.memento_function
+def F(x=1, hid=None):
+    if hid is not None:
+        return ['F', globals()[hid](0)]
+    return ['F', G(x - 1)] if x > 0 else ['F']
+"""
+REDEF_G = """
+@m.memento_function
+def G(x=1, hid=None):
+    if hid is not None:
+        return ['G', globals()[hid](0)]
+    return ['G', F(x - 1), %s(0)] if x > 0 else ['G']
+"""
+
+
+def _redef_cycle_child(root, store):
+    import importlib
+    import sys
+
+    from .. import audit
+    from twosigma.memento.exception import UndeclaredDependencyError
+
+    audit.install()
+    farm.set_env(store)
+    os.makedirs(os.path.join(root, "vfc2"))
+    open(os.path.join(root, "vfc2", "__init__.py"), "w").close()
+    open(os.path.join(root, "vfc2", "a.py"), "w").write(REDEF_SRC_HEAD + REDEF_G % "OLD")
+    sys.path.insert(0, root)
+    a = importlib.import_module("vfc2.a")
+    n = [10]
+
+    def look():
+        o = {}
+        for fn in ("F", "G"):
+            dg = getattr(a, fn).dependencies()
+            o[fn + ".trans"] = sorted(x.qualified_name_without_version.split(":")[-1] for x in dg.transitive_memento_fn_dependencies())
+        for hid in ("OLD", "NEW"):
+            n[0] += 1
+            try:
+                a.G(n[0], hid=hid)
+                o["G-calls-" + hid] = "ok"
+            except UndeclaredDependencyError:
+                o["G-calls-" + hid] = "refused"
+            except Exception as e:
+                o["G-calls-" + hid] = "exc:%s" % type(e).__name__
+        return o
+
+    obs = [look()]
+    # G is re-defined in the running process (the definition alone is executed again, as a notebook cell would): it now
+    # names NEW instead of OLD. F <-> G stay on a cycle.
+    src = "import sys\nimport twosigma.memento as m\n" + REDEF_G % "NEW"
+    path = os.path.join(root, "redef_G.py")
+    open(path, "w").write(src)
+    exec(compile(src, path, "exec"), a.__dict__)
+    obs.append(look())
+    return obs
+
+
+def redef_cycle_case(_):
+    top = scratch_dir("c14c")
+    out = {"evaluations": 1, "states": 2, "transitions": 2, "traces": 1, "violations": [], "outcomes": ["redef-cycle"]}
+    try:
+        try:
+            obs = farm.fork_call(_redef_cycle_child, top, os.path.join(top, "store"))
+        except farm.ChildFailed as e:
+            raise HarnessError("redefinition child failed: %s" % e)
+        for k, (o, leaf) in enumerate(zip(obs, ("OLD", "NEW"))):
+            other = "NEW" if leaf == "OLD" else "OLD"
+            want = {"F.trans": sorted(["G", leaf]), "G.trans": sorted(["F", leaf]), "G-calls-" + leaf: "ok", "G-calls-" + other: "refused"}
+            if o != want:
+                diff = sorted(x for x in want if o.get(x) != want[x])
+                out["violations"].append(("redefined-on-cycle|step:%d|differs:%s" % (k, "+".join(diff)),
+                                          "F <-> G, G names %s%s: observed %s, the reference graph gives %s"
+                                          % (leaf, " (G re-defined in the running process)" if k else "", {x: o.get(x) for x in diff}, {x: want[x] for x in diff}), {"redef_cycle": True}))
+                break
+    finally:
+        rm(top)
+    return out
+
+
 def rebind_case(args):
     """A name in the body is re-pointed, in the running process, from one memento function to another: the reported
     closure and the run-time check must follow the reference graph of the moment."""
@@ -398,7 +491,7 @@ def run(ctx):
     ctx.rule = ("all digraphs without self loops over N nodes x all kind assignments over {memento auto, memento explicit, "
                 "plain} with at least one auto memento node (N<=3 exhaustive; thorough: N=4 up to node relabelling), edge "
                 "reference forms by covering rotation over {bare, module.attr, alias, wrapper, inside a comprehension, inside a lambda, "
-                "through functools.partial, module.attr assigned to a local of the same name} (all assignments for N=2); per "
+                "through functools.partial, module.attr assigned to a local of the same name, inside the arguments of a call whose result is dereferenced} (all assignments for N=2); per "
                 "graph: transitive / direct / graph links of every memento node vs reachability, and every hidden or "
                 "argument-passed call u=>v and u->w=>v through every modifier vs the closure; graphs with N in {2,3} additionally with the "
                 "nodes spread over a.py, the package __init__.py and a sibling module. distinct = graphs.")
@@ -445,6 +538,7 @@ def run(ctx):
     E1, E2, AUTO = "@m.memento_function(version='1')", "@m.memento_function(version='2')", "@m.memento_function"
     rb = [(E1, E1, "explicit-same-version"), (E1, E2, "explicit-different-versions"), (AUTO, AUTO, "auto"), (AUTO, E1, "auto-and-explicit")]
     ctx.merge(pmap(rebind_case, rb, chunksize=1))
+    ctx.merge([redef_cycle_case(None)])
     # the run-time check decides by the calling frame: it must be the frame of the calling THREAD
     cs = []
     for be in ("mem",) if not thorough else ("mem", "fs+cache-all"):
@@ -464,6 +558,12 @@ def replay(ctx, art):
     a = art["artefact"]
     if "scn" in a:
         return c09.replay_concurrent("C14", art)
+    if "redef_cycle" in a:
+        r = redef_cycle_case(None)
+        for v in r["violations"]:
+            print(v[0], "\n", v[1])
+        print("REPLAY property=C14 result=%s" % bool(r["violations"]))
+        return 1 if r["violations"] else 0
     if "rebind" in a:
         r = rebind_case(tuple(a["rebind"]))
         for v in r["violations"]:
